@@ -95,7 +95,22 @@ pub fn gen_history_ids(rng: &mut Rng, id_base: u32, scatter: Option<u64>) -> His
                         }
                     }
                     0 => AInst::named("TypeBool", None, Some(id), vec![]),
-                    1 => AInst::named("TypeVector", None, Some(id), vec![AOp::id(types.first().copied().unwrap_or(1)), AOp::lit(4)]),
+                    1 => {
+                        // composite types over the numeric types declared so far (vector, matrix of such a vector,
+                        // array, pointer): they are types a constant or a selector's value can name, and a literal
+                        // of such a type takes one word whatever the component's width is (round 8: a tracker
+                        // that files vectors and matrices under their component type)
+                        let comp = if types.is_empty() { 1 } else { *rng.pick(&types) };
+                        let i = match rng.below(4) {
+                            0 | 1 => AInst::named("TypeVector", None, Some(id), vec![AOp::id(comp), AOp::lit(2 + rng.below(3) as u32)]),
+                            2 => AInst::named("TypeMatrix", None, Some(id), vec![AOp::id(comp), AOp::lit(2 + rng.below(3) as u32)]),
+                            _ => AInst::named("TypePointer", None, Some(id), vec![AOp::w(K::StorageClass, 6), AOp::id(comp)]),
+                        };
+                        if rng.chance(3, 4) {
+                            types.push(id);
+                        }
+                        i
+                    }
                     _ => AInst::named("Name", None, None, vec![AOp::id(id), AOp::s("n")]),
                 }
             }
